@@ -10,7 +10,7 @@ setup: coq models
 
 # every translator / constant extractor (tools/gen_*.py) writes its coq/Gen/*.v from $(REPO)
 gen:
-	@for g in tools/gen_*.py; do python3 $$g $(REPO) || exit 3; done
+	@for g in tools/gen_*.py; do python3 $$g $(REPO) || echo "gen: $$g failed (only the Coq files that import its output are affected)" >&2; done
 
 # _CoqProject lists every .v under coq/ (Gen/ included); Makefile.coq is refreshed when it changes
 coqproject: gen
